@@ -10,7 +10,7 @@ use std::num::NonZeroUsize;
 use rand_chacha::ChaCha8Rng;
 use rand_core::SeedableRng;
 use vcommon::*;
-use zcash_pool_migration::denomination::{plan_denominations, DenominationPlan};
+use zcash_pool_migration::denomination::{plan_denominations, CanonicalOneTwoFive, DenominationPlan, DenominationStrategy};
 use zcash_pool_migration::engine::{plan_migration_with, MigrationError};
 use zcash_pool_migration::preparation::default_portfolio;
 use zcash_pool_migration_memory::MockBackend;
@@ -474,6 +474,138 @@ fn corpus(o: &mut Out, seeds: (u64, u64)) {
 }
 
 // ---------------------------------------------------------------------------------------------
+// CanonicalOneTwoFive::new with caller-chosen bounds (minimum a power of ten, as documented)
+// ---------------------------------------------------------------------------------------------
+#[derive(Clone, Debug)]
+struct NewIn {
+    p: PlanIn,
+    maxd: u64,
+    mind: u64,
+}
+
+fn new_once(i: &NewIn, rng_seed: u64) -> Option<(DenominationPlan, Vec<u64>, usize)> {
+    let calls = Cell::new(0usize);
+    let os = i.p.os.clone();
+    let oracle = |notes: &[Zatoshis]| {
+        let c = calls.get();
+        calls.set(c + 1);
+        os.answer(c, notes)
+    };
+    let mut rng = ChaCha8Rng::seed_from_u64(rng_seed);
+    let r = catch(|| {
+        let s = CanonicalOneTwoFive::new(i.p.cap, zt(i.maxd), zt(i.mind), zt(i.p.buffer));
+        let p = s.plan(zt(i.p.total), i.p.nc, zt(i.p.fee), &oracle, &mut rng);
+        let outs: Vec<u64> = p.migration_outputs().iter().map(|v| v.into_u64()).collect();
+        (p, outs)
+    });
+    r.map(|(p, outs)| (p, outs, calls.get()))
+}
+
+fn new_case(o: &mut Out, i: &NewIn, seeds: (u64, u64)) {
+    let a = new_once(i, seeds.0);
+    let b = new_once(i, seeds.1);
+    let same = match (&a, &b) {
+        (Some((p, po, pc)), Some((q, qo, qc))) => p == q && po == qo && pc == qc,
+        (None, None) => true,
+        _ => false,
+    };
+    let outcome = match &a {
+        None => {
+            o.bump("new_panic");
+            PANIC.to_string()
+        }
+        Some((p, outs, calls)) => {
+            let cross: Vec<u64> = p.crossing_values().iter().map(|v| v.into_u64()).collect();
+            o.bump(if cross.is_empty() { "new_empty" } else { "new_nonempty" });
+            ok(format!(
+                "(mkPlan {} {} {} {} {} {} {} {})",
+                zl(&cross),
+                zl(outs),
+                opt(p.change().map(|v| zu(v.into_u64() as u128))),
+                zu(u64::from(p.prep_fees()) as u128),
+                zu(u64::from(p.total_input()) as u128),
+                zu(u64::from(p.total_migratable()) as u128),
+                zu(u64::from(p.note_fee_buffer()) as u128),
+                zu(*calls as u128)
+            ))
+        }
+    };
+    if i.maxd < i.mind {
+        o.bump("new_max_below_min");
+    }
+    o.c(format!(
+        "PlanNew {} {} {} {} {} {} {} {} {} {}",
+        zu(i.p.total as u128),
+        zu(i.p.nc as u128),
+        zu(i.p.cap as u128),
+        zu(i.maxd as u128),
+        zu(i.mind as u128),
+        zu(i.p.buffer as u128),
+        zu(i.p.fee as u128),
+        i.p.os.coq(),
+        outcome,
+        boolc(same)
+    ));
+}
+
+fn new_cases(o: &mut Out, r: &mut Rng, nrand: usize, thorough: bool, seeds: (u64, u64)) {
+    let all: Vec<u64> = all_125().into_iter().filter(|&x| x <= MAX_MONEY).collect();
+    let pows: Vec<u64> = all.iter().copied().filter(|x| x.to_string().starts_with('1')).collect();
+    // lattice: every 1-2-5 value as an exactly held single note / two notes, under a few bound pairs
+    let mut bounds: Vec<(u64, u64)> = vec![(1, MAX_MONEY), (100, 30_000), (MIN, 3 * MIN), (10 * MIN, MIN)];
+    if thorough {
+        bounds.extend([(1, 7), (MIN, CAPD), (CAPD, CAPD), (1_000_000_000_000_000, MAX_MONEY), (1_000, 0)]);
+    }
+    for &(mind, maxd) in &bounds {
+        for &d in &all {
+            for (buffer, fee) in [(0u64, 0u64), (ZIP317_BUFFER, PREP_FEE)] {
+                for dz in [0i128, -1, 1] {
+                    let t = d as i128 + buffer as i128 + dz;
+                    if !(0..=MAX_MONEY as i128).contains(&t) || (dz != 0 && buffer != 0) {
+                        continue;
+                    }
+                    for nc in [1usize, 2] {
+                        let cap = [0usize, 1, 3, 50][(nc + (d % 7) as usize) % 4];
+                        let p = PlanIn { total: t as u64, nc, cap, buffer, fee, os: if nc == 1 { OSpec::Const(Some(0)) } else { OSpec::Stub } };
+                        new_case(o, &NewIn { p, maxd, mind }, seeds);
+                    }
+                }
+            }
+        }
+    }
+    for _ in 0..nrand {
+        let mind = *r.pick(&pows);
+        let maxd = match r.below(6) {
+            0 => *r.pick(&all),
+            1 => r.below(MAX_MONEY + 1),
+            2 => mind.saturating_mul(*r.pick(&[1u64, 2, 3, 5, 7, 10, 49, 50, 1000, 100_000])).min(MAX_MONEY),
+            3 => mind.saturating_sub(r.below(2)),
+            4 => MAX_MONEY,
+            _ => r.below(1 + 1000 * mind.min(MAX_MONEY / 1000)),
+        };
+        let adv = r.chance(1, 4);
+        let mut p = rand_plan(r, adv);
+        if r.chance(1, 8) {
+            p.cap = 0;
+        }
+        if r.chance(2, 3) {
+            // a balance assembled from admissible parts
+            let adm: Vec<u64> = all.iter().copied().filter(|x| (mind..=maxd).contains(x)).collect();
+            if !adm.is_empty() {
+                let parts = 1 + r.below(6);
+                let mut t: u128 = 0;
+                for _ in 0..parts {
+                    t += *r.pick(&adm) as u128 + p.buffer as u128;
+                }
+                t += r.below(3) as u128 * p.fee as u128 + r.below(3) as u128;
+                p.total = t.min(MAX_MONEY as u128) as u64;
+            }
+        }
+        new_case(o, &NewIn { p, maxd, mind }, seeds);
+    }
+}
+
+// ---------------------------------------------------------------------------------------------
 // engine::plan_migration_with: the same planner behind the real preparation planner as oracle
 // ---------------------------------------------------------------------------------------------
 fn local_net() -> LocalNetwork {
@@ -783,6 +915,7 @@ fn main() {
         plan_case(&mut o, &p, seeds);
     }
     engine_cases(&mut o, &mut r, a.budget(500, 8_000), seeds);
+    new_cases(&mut o, &mut r, a.budget(700, 10_000), thorough, seeds);
     l125_cases(&mut o, &mut r, a.budget(500, 6_000));
     canon_cases(&mut o, &mut r, a.budget(300, 3_000));
     stored_cases(&mut o, &mut r, a.budget(100, 2_000));
